@@ -127,6 +127,7 @@ def decide(model, rep, entries, control=False):
                     rep.violation('C11.GLOB', fi.loc(c), src(c), 'class-level mutable attribute %s.%s is mutated through the instance: state shared between calls' % (ci.name, c.func.value.attr),
                                   key='C11.GLOB|classattr|%s.%s' % (cq, c.func.value.attr))
     rep.ok('C11.GLOB', 'src/python_minifier', 'scan of %d reachable functions' % len(quals), '%d writes to shared state' % n_glob, cells=len(quals), key='C11.GLOB|scan')
+    shared_escape(model, rep, cg, quals, control)
 
     # ---------------- ND
     n_nd = 0
@@ -155,6 +156,83 @@ def decide(model, rep, entries, control=False):
 
     # ---------------- ORDR
     order_rule(model, rep, cg, E, quals, control)
+
+
+# ---------------------------------------------------------------------- shared mutable objects must not leave their module-level name
+READ_ONLY_BUILTINS = {'len', 'sorted', 'set', 'frozenset', 'tuple', 'list', 'dict', 'sum', 'min', 'max', 'any', 'all', 'enumerate', 'zip', 'isinstance', 'issubclass', 'repr', 'str', 'bool', 'reversed', 'filter', 'map'}
+READ_ONLY_METHODS = {'get', 'items', 'keys', 'values', 'index', 'count', 'copy', 'join', 'format', 'startswith', 'endswith', 'union', 'intersection', 'difference', 'issubset', 'issuperset', 'isdisjoint',
+                     'match', 'search', 'fullmatch', 'sub', 'split', 'findall', 'finditer', 'encode', 'decode', 'lower', 'upper', 'strip', 'replace', '__contains__'}
+IMMUTABLE_CALLS = {'frozenset', 'tuple', 'object', 'str', 'bytes', 'int', 'float', 're.compile', 'namedtuple', 'collections.namedtuple', 'property', 'staticmethod', 'classmethod'}
+
+
+def _mutable_value(v):
+    if isinstance(v, (ast.List, ast.Dict, ast.Set, ast.ListComp, ast.DictComp, ast.SetComp, ast.GeneratorExp)):
+        return True
+    if isinstance(v, ast.Call):
+        return src(v.func) not in IMMUTABLE_CALLS
+    if isinstance(v, ast.BinOp):
+        return _mutable_value(v.left) or _mutable_value(v.right)
+    return False
+
+
+def shared_escape(model, rep, cg, quals, control):
+    """A mutable object created at module level (list / dict / set display, the result of a call - an instance, a generator) lives as long as the
+    process. Functions reachable from the API may only *read* it in place: iterate, test membership, index, hand it to a read-only builtin. Any
+    other use - stored into an attribute or a variable, returned, passed on, advanced with next(), mutated - lets one call see what another
+    call (or another thread) left there."""
+    n_sites = 0
+    for q in quals:
+        fi = model.funcs[q]
+        shared = {}
+        for name, v in model.module_assigns.get(fi.module, {}).items():
+            if _mutable_value(v):
+                shared[name] = (fi.module, v)
+        for name, target in model.imports.get(fi.module, {}).items():
+            if target and '.' in target:
+                m_, n_ = target.rsplit('.', 1)
+                v = model.module_assigns.get(m_, {}).get(n_)
+                if v is not None and _mutable_value(v):
+                    shared[name] = (m_, v)
+        if not shared:
+            continue
+        local = set(cg.defs(fi)) | set(fi.params)
+        parent = {}
+        for n in ast.walk(fi.node):
+            for c in ast.iter_child_nodes(n):
+                parent[id(c)] = n
+        for n in walk_own(fi.node):
+            if not (isinstance(n, ast.Name) and isinstance(n.ctx, ast.Load) and n.id in shared and n.id not in local):
+                continue
+            p = parent.get(id(n))
+            ok = False
+            if isinstance(p, (ast.For, ast.AsyncFor, ast.comprehension)) and p.iter is n:
+                ok = True
+            elif isinstance(p, ast.Call) and p.func is n:
+                ok = True        # a callable made at import time (a predicate built by a factory) is called, not shared
+            elif isinstance(p, ast.Compare) and (n in p.comparators or p.left is n):
+                ok = True
+            elif isinstance(p, ast.Subscript) and p.value is n and isinstance(p.ctx, ast.Load):
+                ok = True
+            elif isinstance(p, ast.Call) and (n in p.args or any(k.value is n for k in p.keywords)) and src(p.func) in READ_ONLY_BUILTINS:
+                ok = True
+            elif isinstance(p, ast.Starred) and isinstance(parent.get(id(p)), ast.Call):
+                ok = True
+            elif isinstance(p, ast.Attribute) and p.value is n and isinstance(parent.get(id(p)), ast.Call) and parent[id(p)].func is p and p.attr in READ_ONLY_METHODS:
+                ok = True
+            elif isinstance(p, ast.Call) and isinstance(p.func, ast.Attribute) and p.func.attr == 'join' and n in p.args:
+                ok = True
+            elif isinstance(p, (ast.BinOp, ast.BoolOp, ast.UnaryOp, ast.IfExp)) and not (isinstance(p, ast.IfExp) and p.test is not n):
+                ok = True
+            elif isinstance(p, ast.Tuple) and isinstance(parent.get(id(p)), ast.Call) and src(parent[id(p)].func) in ('isinstance', 'issubclass'):
+                ok = True
+            n_sites += 1
+            if not ok:
+                m_, v = shared[n.id]
+                use = src(p)[:70] if p is not None else n.id
+                rep.violation('C11.GLOB', fi.loc(n), '%s in `%s`' % (n.id, use),
+                              'the module-level object %s (%s, created once per process by `%s`) leaves its name here: it is stored, returned, passed on, advanced or mutated, so that calls '
+                              '(and threads) share its state' % (n.id, m_, src(v)[:50]), key='C11.GLOB|escape|%s|%s' % (q, n.id))
+    rep.ok('C11.GLOB', 'src/python_minifier', 'uses of module-level mutable objects in reachable functions: %d' % n_sites, 'all read-only in place', cells=max(n_sites, 1), key='C11.GLOB|escape-scan')
 
 
 # ---------------------------------------------------------------------- set typing and order-insensitive consumption
